@@ -50,7 +50,9 @@ func (ec *evalCtx) bufferObject(w Value) (int, bool) {
 	case *PtrV:
 		if sv, ok := ec.st.heap[x.Obj].(*StructV); ok {
 			if _, has := sv.F["buf"]; has {
-				if _, isW := sv.F["$writer"]; !isW {
+				_, isW := sv.F["$writer"]
+				_, isB := sv.F["$target"]
+				if !isW && !isB {
 					return x.Obj, true
 				}
 			}
@@ -65,7 +67,8 @@ func (ec *evalCtx) bufferObject(w Value) (int, bool) {
 		}
 	case *boxedV:
 		if sv, ok := ec.st.heap[x.Obj].(*StructV); ok {
-			if _, has := sv.F["buf"]; has {
+			_, isB := sv.F["$target"]
+			if _, has := sv.F["buf"]; has && !isB {
 				return x.Obj, true
 			}
 		}
@@ -110,6 +113,103 @@ func (ec *evalCtx) ghostWrite(w Value, content *Term) (n, err *Term) {
 	ec.noteFailure(Not(Eq(err, Int(0))))
 	ec.e().trusted["writer contract: an io.Writer accepts a prefix of each write, and all of it iff it returns a nil error"] = true
 	return n, err
+}
+
+// runtimeBuffer: if w denotes a templ runtime.Buffer (struct with Underlying and
+// b *bufio.Writer) returns its struct.
+func (ec *evalCtx) runtimeBuffer(w Value) (*StructV, bool) {
+	var p *PtrV
+	switch x := w.(type) {
+	case *PtrV:
+		p = x
+	case *IfaceV:
+		if x.Tag.IsInt() && len(x.Payloads) == 1 {
+			for _, pl := range x.Payloads {
+				p, _ = pl.(*PtrV)
+			}
+		}
+	}
+	if p == nil || p.Obj < 0 {
+		return nil, false
+	}
+	sv, ok := ec.st.heap[p.Obj].(*StructV)
+	if !ok || sv.F["Underlying"] == nil || sv.F["b"] == nil {
+		return nil, false
+	}
+	return sv, true
+}
+
+// runtimeBufferSym: like runtimeBuffer, but for an interface value with a
+// symbolic dynamic type returns the *Buffer payload together with the
+// condition "the dynamic type is *runtime.Buffer".
+func (ec *evalCtx) runtimeBufferSym(w Value) (*StructV, *Term, bool) {
+	if sv, ok := ec.runtimeBuffer(w); ok {
+		return sv, True, true
+	}
+	iv, ok := w.(*IfaceV)
+	if !ok {
+		return nil, nil, false
+	}
+	if iv.Tag.IsInt() {
+		return nil, nil, false
+	}
+	rp := ec.e().pkgs[modulePath+"/runtime"]
+	if rp == nil {
+		return nil, nil, false
+	}
+	obj := rp.Types.Scope().Lookup("Buffer")
+	if obj == nil {
+		return nil, nil, false
+	}
+	pt := types.NewPointer(obj.Type())
+	cond, p := ec.assertTo(iv, pt)
+	pv, ok := p.(*PtrV)
+	if !ok || pv.Obj < 0 {
+		return nil, nil, false
+	}
+	sv, ok := ec.st.heap[pv.Obj].(*StructV)
+	if !ok {
+		return nil, nil, false
+	}
+	return sv, cond, true
+}
+
+func (ec *evalCtx) bufferDoc(sv *StructV) *Term {
+	bwp, ok := sv.F["b"].(*PtrV)
+	if ok && bwp.Obj >= 0 {
+		if bsv, ok := ec.st.heap[bwp.Obj].(*StructV); ok && bsv.F["$target"] != nil {
+			return Concat(scalar(ec.outLval(sv.F["Underlying"]).get()), scalar(bsv.F["buf"]))
+		}
+	}
+	panic(unsupported("doc: runtime.Buffer without a modelled bufio.Writer"))
+}
+
+// docValue: the logical output of a writer: for a runtime.Buffer the bytes its
+// underlying writer accepted followed by the bytes still pending in its
+// bufio.Writer; for any other writer out(w).
+func (ec *evalCtx) docValue(w Value) Value {
+	if sv, cond, ok := ec.runtimeBufferSym(w); ok {
+		if cond.IsTrue() {
+			return ec.bufferDoc(sv)
+		}
+		return Ite(cond, ec.bufferDoc(sv), scalar(ec.outLval(w).get()))
+	}
+	return ec.outLval(w).get()
+}
+
+// ghostWriteIf performs ghostWrite only when cond holds (state merged with ite).
+func (ec *evalCtx) ghostWriteIf(w Value, content *Term, cond *Term) (n, err *Term) {
+	if cond.IsTrue() {
+		return ec.ghostWrite(w, content)
+	}
+	lv := ec.outLval(w)
+	before := scalar(lv.get())
+	beforeFailed := scalar(ec.failedLval().get())
+	n, err = ec.ghostWrite(w, content)
+	after := scalar(lv.get())
+	lv.set(Ite(cond, after, before))
+	ec.failedLval().set(Ite(cond, scalar(ec.failedLval().get()), beforeFailed))
+	return n, Ite(cond, err, Int(0))
 }
 
 // ---------------------------------------------------------------------------
@@ -200,6 +300,15 @@ func (ec *evalCtx) ghostLvalOf(e ast.Expr) (lval, bool) {
 				return ec.traceLval(ec.eval(x.Args[0])), true
 			case "in":
 				return ec.inLval(ec.eval(x.Args[0])), true
+			case "target":
+				if p, ok := ec.eval(x.Args[0]).(*PtrV); ok && p.Obj >= 0 {
+					if sv, ok := ec.st.heap[p.Obj].(*StructV); ok && sv.F["$target"] != nil {
+						return lval{
+							get: func() Value { return ec.st.heap[p.Obj].(*StructV).F["$target"] },
+							set: func(v Value) { ec.st.heap[p.Obj] = ec.st.heap[p.Obj].(*StructV).With("$target", v) },
+						}, true
+					}
+				}
 			}
 		}
 	}
@@ -208,6 +317,24 @@ func (ec *evalCtx) ghostLvalOf(e ast.Expr) (lval, bool) {
 
 // havocGhost assigns a fresh value to a ghost location.
 func (ec *evalCtx) havocGhost(e ast.Expr) bool {
+	if call, ok := e.(*ast.CallExpr); ok && exprString(call.Fun) == "doc" && len(call.Args) == 1 {
+		w := ec.eval(call.Args[0])
+		if sv, cond, ok := ec.runtimeBufferSym(w); ok {
+			if !cond.IsTrue() {
+				ec.outLval(w).set(Var(ec.e().fresher.name("ghost.out"), SStr))
+			}
+			ulv := ec.outLval(sv.F["Underlying"])
+			ulv.set(Var(ec.e().fresher.name("ghost.out"), SStr))
+			if bwp, ok := sv.F["b"].(*PtrV); ok && bwp.Obj >= 0 {
+				if bsv, ok := ec.st.heap[bwp.Obj].(*StructV); ok {
+					ec.st.heap[bwp.Obj] = bsv.With("buf", Var(ec.e().fresher.name("ghost.pending"), SStr)).With("$err", Var(ec.e().fresher.name("ghost.sticky"), SInt))
+				}
+			}
+			return true
+		}
+		ec.outLval(w).set(Var(ec.e().fresher.name("ghost.out"), SStr))
+		return true
+	}
 	lv, ok := ec.ghostLvalOf(e)
 	if !ok {
 		return false
@@ -504,6 +631,77 @@ func init() {
 		return trimSpaceModel(ec, scalar(args[0]))
 	}
 	specModels["strings.TrimSpace"] = func(ec *evalCtx, a []Value) Value { return trimSpaceModel(ec, scalar(a[0])) }
+	bw := func(ec *evalCtx, recv Value) (*StructV, func(*StructV)) {
+		p, ok := recv.(*PtrV)
+		if !ok {
+			panic(unsupported("bufio.Writer receiver %T", recv))
+		}
+		sv, ok := ec.st.heap[p.Obj].(*StructV)
+		if !ok || sv.F["$target"] == nil {
+			panic(unsupported("bufio.Writer object is opaque"))
+		}
+		return sv, func(n *StructV) { ec.st.heap[p.Obj] = n }
+	}
+	stdModels["bufio.NewWriterSize"] = func(ec *evalCtx, call *ast.CallExpr, recv Value, args []Value) Value {
+		sv := &StructV{Names: []string{"$target", "buf", "$err"}, F: map[string]Value{"$target": args[0], "buf": Str(""), "$err": Int(0)}}
+		return &PtrV{Nil: False, Obj: ec.e().allocObj(ec.st, sv)}
+	}
+	stdModels["bufio.NewWriter"] = stdModels["bufio.NewWriterSize"]
+	stdModels["(*bufio.Writer).Reset"] = func(ec *evalCtx, call *ast.CallExpr, recv Value, args []Value) Value {
+		if p, ok := recv.(*PtrV); ok {
+			ec.oblige("nil", Not(p.Nil), call.Pos(), "nil *bufio.Writer")
+		}
+		sv, set := bw(ec, recv)
+		set(sv.With("$target", args[0]).With("buf", Str("")).With("$err", Int(0)))
+		return nil
+	}
+	stdModels["(*bufio.Writer).Size"] = func(ec *evalCtx, call *ast.CallExpr, recv Value, args []Value) Value {
+		return Var(ec.e().fresher.name("bufio.size"), SInt)
+	}
+	// Write/WriteString: sticky error => nothing happens. Otherwise either the bytes are buffered, or a
+	// flush of (pending ++ s) to the target is attempted; on failure the error becomes sticky.
+	bwWrite := func(ec *evalCtx, call *ast.CallExpr, recv Value, args []Value) Value {
+		if p, ok := recv.(*PtrV); ok {
+			ec.oblige("nil", Not(p.Nil), call.Pos(), "nil *bufio.Writer")
+		}
+		sv, set := bw(ec, recv)
+		s := scalar(args[0])
+		sticky := scalar(sv.F["$err"])
+		pending := scalar(sv.F["buf"])
+		fl := Var(ec.e().fresher.name("bufio.flushes"), SBool)
+		active := And(Eq(sticky, Int(0)), fl)
+		ec.st.guards = append(ec.st.guards, active)
+		total := Concat(pending, s)
+		_, werr := ec.ghostWriteIf(sv.F["$target"], total, active)
+		ec.st.guards = ec.st.guards[:len(ec.st.guards)-1]
+		lost := Var(ec.e().fresher.name("bufio.pending"), SStr)
+		newPending := Ite(Eq(sticky, Int(0)), Ite(fl, Ite(Eq(werr, Int(0)), Str(""), lost), Concat(pending, s)), pending)
+		newSticky := Ite(Eq(sticky, Int(0)), Ite(fl, werr, Int(0)), sticky)
+		set(sv.With("buf", newPending).With("$err", newSticky))
+		n := Var(ec.e().fresher.name("bufio.n"), SInt)
+		ec.st.Assume(And(Le(Int(0), n), Le(n, StrLen(s))))
+		ec.st.Assume(Implies(Eq(newSticky, Int(0)), Eq(n, StrLen(s))))
+		ec.noteFailure(Not(Eq(newSticky, Int(0))))
+		ec.e().trusted["std:bufio.Writer (sticky error; logical output = target output ++ pending; a write either buffers or flushes a prefix to the target)"] = true
+		return &TupleV{Vs: []Value{n, newSticky}}
+	}
+	stdModels["(*bufio.Writer).WriteString"] = bwWrite
+	stdModels["(*bufio.Writer).Write"] = bwWrite
+	stdModels["(*bufio.Writer).Flush"] = func(ec *evalCtx, call *ast.CallExpr, recv Value, args []Value) Value {
+		if p, ok := recv.(*PtrV); ok {
+			ec.oblige("nil", Not(p.Nil), call.Pos(), "nil *bufio.Writer")
+		}
+		sv, set := bw(ec, recv)
+		sticky := scalar(sv.F["$err"])
+		pending := scalar(sv.F["buf"])
+		active := Eq(sticky, Int(0))
+		_, werr := ec.ghostWriteIf(sv.F["$target"], pending, active)
+		lost := Var(ec.e().fresher.name("bufio.pending"), SStr)
+		newSticky := Ite(active, werr, sticky)
+		set(sv.With("buf", Ite(active, Ite(Eq(werr, Int(0)), Str(""), lost), pending)).With("$err", newSticky))
+		ec.noteFailure(Not(Eq(newSticky, Int(0))))
+		return newSticky
+	}
 	stdModels["(context.Context).Err"] = func(ec *evalCtx, call *ast.CallExpr, recv Value, args []Value) Value {
 		iv, ok := recv.(*IfaceV)
 		if !ok {
